@@ -14,8 +14,9 @@ type vNum interface {
 
 func vhC04Frame() {
 	kind := vCfgStr("write")
-	if kind == "neg" || kind == "add" || kind == "addscalar" {
-		vDispatch(vCfgStr("dtype"), vBodies{i: vC04FrameNum[int], i8: vC04FrameNum[int8], i32: vC04FrameNum[int32], u16: vC04FrameNum[uint16], f32: vC04FrameNum[float32], f64: vC04FrameNum[float64], c128: vC04FrameNum[complex128]})
+	if kind == "neg" || kind == "add" || kind == "addscalar" || kind == "sub" || kind == "mul" {
+		vDispatch(vCfgStr("dtype"), vBodies{i: vC04FrameNum[int], i8: vC04FrameNum[int8], i16: vC04FrameNum[int16], i32: vC04FrameNum[int32], i64: vC04FrameNum[int64], u8: vC04FrameNum[uint8], u16: vC04FrameNum[uint16],
+			f32: vC04FrameNum[float32], f64: vC04FrameNum[float64], c128: vC04FrameNum[complex128]})
 		return
 	}
 	vDispatch(vCfgStr("dtype"), vBodies{b: vC04Frame[bool], i: vC04Frame[int], i8: vC04Frame[int8], i16: vC04Frame[int16], i32: vC04Frame[int32], u16: vC04Frame[uint16], f32: vC04Frame[float32], f64: vC04Frame[float64],
@@ -182,6 +183,23 @@ func vC04FrameNum[T vNum]() {
 		if err == nil {
 			vC04Check(b, old, ranks, func(k int) T { return old[ranks[k]] + xw[k] })
 		}
+	case "sub", "mul": // (every generated iterator kernel writes through its own index variables)
+		kind := vCfgStr("write")
+		x, xw := vMkOperand[T]("x", vshape, vCfgStr("srclayout"))
+		var err error
+		if kind == "sub" {
+			_, err = Sub(view, x, UseUnsafe())
+		} else {
+			_, err = Mul(view, x, UseUnsafe())
+		}
+		vAssert(err == nil, kind+"-ok")
+		if err == nil {
+			if kind == "sub" {
+				vC04Check(b, old, ranks, func(k int) T { return old[ranks[k]] - xw[k] })
+			} else {
+				vC04Check(b, old, ranks, func(k int) T { return old[ranks[k]] * xw[k] })
+			}
+		}
 	case "addscalar":
 		s := vNondet[T]("s")
 		_, err := Add(view, s, UseUnsafe())
@@ -267,7 +285,8 @@ func vC04Alias[T vScalar]() {
 
 // vhC04Copy: copies are logically equal to their source and share no storage with it.
 func vhC04Copy() {
-	vDispatch(vCfgStr("dtype"), vBodies{b: vC04Copy[bool], i: vC04Copy[int], f64: vC04Copy[float64], i8: vC04Copy[int8], i16: vC04Copy[int16], f32: vC04Copy[float32], c128: vC04Copy[complex128], str: vC04Copy[string]})
+	vDispatch(vCfgStr("dtype"), vBodies{b: vC04Copy[bool], i: vC04Copy[int], f64: vC04Copy[float64], i8: vC04Copy[int8], i16: vC04Copy[int16], i32: vC04Copy[int32], i64: vC04Copy[int64], u: vC04Copy[uint], u8: vC04Copy[uint8], u16: vC04Copy[uint16], u32: vC04Copy[uint32], u64: vC04Copy[uint64],
+		f32: vC04Copy[float32], c128: vC04Copy[complex128], str: vC04Copy[string]})
 }
 
 func vC04Copy[T vScalar]() {
@@ -351,6 +370,17 @@ func vC04Copy[T vScalar]() {
 	}
 	vAssert(cp.Dtype() == src.Dtype(), "dtype")
 	vCheckAll(cp, want, shape, "equal", kfID, kfColX)
+	// a compact copy's flags and strides tell the same story (a copy flagged column-major over row-major strides computes
+	// wrongly as soon as it meets a genuine column-major tensor)
+	if !cp.RequiresIterator() && len(shape) >= 2 && vProd(shape) > 1 && vCfgStr("op") != "safet" && vCfgStr("op") != "apitranspose" {
+		var ws []int
+		if cp.DataOrder().IsColMajor() {
+			ws = Shape(shape).CalcStridesColMajor()
+		} else {
+			ws = Shape(shape).CalcStrides()
+		}
+		vAssertKF(vIntsEqC(ws, cp.Strides()), "copy-strides-match-data-order", kfID, kfColX)
+	}
 	vAssert(!vSameBacking(cp.Data(), src.Data()), "no-shared-backing")
 	// independence: a symbolic write through the copy leaves the source unchanged, and vice versa
 	if len(shape) == 0 {
@@ -383,6 +413,12 @@ func vElemF64(x interface{}) (float64, bool) {
 	case uint8:
 		return float64(v), true
 	case uint16:
+		return float64(v), true
+	case uint32:
+		return float64(v), true
+	case uint:
+		return float64(v), true
+	case uint64:
 		return float64(v), true
 	case float32:
 		return float64(v), true
